@@ -13,30 +13,29 @@ SubSeqs(s) == IF s = <<>> THEN {<<>>}
               ELSE LET r == SubSeqs(Tail(s)) IN r \cup {<<Head(s)>> \o x : x \in r}
 
 (* ---- quick: hand-picked small scenarios, exhaustive ---- *)
-QuickScenarios ==
-    {  \* a sampler whose errors end it + a swallowing delta device, one cluster
-       S(<<D("ccr", TRUE, 2, "none", FALSE), I("jvm")>>, 1, "off", TRUE, 1, Bench),
-       \* node-stats on two clusters (info() may fail), empty cluster meta info
-       S(<<D("nodestats", TRUE, 1, "none", TRUE)>>, 2, "off", FALSE, 1, Bench),
-       \* a device that raises in front of a sampler, and behind it
-       S(<<I("ingest"), D("recovery", TRUE, 3, "none", FALSE)>>, 1, "off", TRUE, 2, Bench),
-       S(<<D("recovery", TRUE, 1, "c2", FALSE), I("ingest")>>, 2, "off", FALSE, 2, Bench),
-       \* transform: record_final after join, two clusters
-       S(<<D("transform", TRUE, 2, "none", FALSE), I("indexstats")>>, 2, "off", TRUE, 1, Bench),
-       \* stop without start
-       S(<<D("ccr", TRUE, 1, "none", FALSE), I("jvm"), I("ingest"), I("indexstats")>>, 1, "off", TRUE, 1, <<"bstop">>),
-       \* rejected parameters: by the constructor (even of a device that is not enabled), lazily by node-stats
-       S(<<I("jvm"), D("ccr", FALSE, 0, "none", FALSE)>>, 1, "off", TRUE, 1, Bench),
-       S(<<D("recovery", TRUE, 1, "bad", FALSE)>>, 1, "off", TRUE, 1, Bench),
-       S(<<D("nodestats", TRUE, 0, "none", FALSE), D("ccr", TRUE, 1, "none", FALSE)>>, 1, "off", TRUE, 1, Bench),
-       \* enabled / not enabled / serverless
-       S(<<D("ccr", FALSE, 1, "none", FALSE), I("indexstats"), D("recovery", TRUE, 2, "none", FALSE)>>, 1, "off", TRUE, 1, Bench),
-       S(<<D("ccr", TRUE, 1, "none", FALSE), D("transform", TRUE, 1, "none", FALSE), I("jvm")>>, 1, "user", TRUE, 1, Bench),
-       S(<<D("ccr", TRUE, 1, "none", FALSE), D("transform", TRUE, 1, "none", FALSE), I("jvm")>>, 1, "operator", TRUE, 1, Bench) }
-    \cup
-    \* node level devices under every caller that respects the order of the life cycle
-    { S(<<D("gc", TRUE, 1, "none", FALSE), I("diskio"), D("gc", FALSE, 1, "none", FALSE), I("startup"), D("gc", TRUE, 1, "none", FALSE)>>,
-        1, "off", TRUE, 1, p) : p \in SubSeqs(NodeLife) }
+\* a sampler whose errors end it + a swallowing delta device, one cluster
+Q1 == S(<<D("ccr", TRUE, 2, "none", FALSE), I("jvm")>>, 1, "off", TRUE, 1, Bench)
+\* node-stats on two clusters (info() may fail), empty cluster meta info
+Q2 == S(<<D("nodestats", TRUE, 2, "none", TRUE)>>, 2, "off", FALSE, 1, Bench)
+\* a device that raises in front of a sampler, and behind it
+Q3 == S(<<I("ingest"), D("recovery", TRUE, 3, "none", FALSE)>>, 1, "off", TRUE, 2, Bench)
+Q4 == S(<<D("recovery", TRUE, 1, "c2", FALSE), I("ingest")>>, 2, "off", FALSE, 2, Bench)
+\* transform: record_final after join, two clusters
+Q5 == S(<<D("transform", TRUE, 3, "none", FALSE), I("indexstats")>>, 2, "off", TRUE, 1, Bench)
+\* stop without start
+Q6 == S(<<D("ccr", TRUE, 1, "none", FALSE), I("jvm"), I("ingest"), I("indexstats")>>, 1, "off", TRUE, 1, <<"bstop">>)
+\* rejected parameters: by the constructor (even of a device that is not enabled), lazily by node-stats
+Q7 == S(<<I("jvm"), D("ccr", FALSE, 0, "none", FALSE)>>, 1, "off", TRUE, 1, Bench)
+Q8 == S(<<D("recovery", TRUE, 1, "bad", FALSE)>>, 1, "off", TRUE, 1, Bench)
+Q9 == S(<<D("nodestats", TRUE, 0, "none", FALSE), D("ccr", TRUE, 3, "none", FALSE)>>, 1, "off", TRUE, 1, Bench)
+\* enabled / not enabled / serverless
+Q10 == S(<<D("ccr", FALSE, 1, "none", FALSE), I("indexstats"), D("recovery", TRUE, 2, "none", FALSE)>>, 1, "off", TRUE, 1, Bench)
+Q11 == S(<<D("ccr", TRUE, 1, "none", FALSE), D("transform", TRUE, 2, "none", FALSE), I("jvm")>>, 1, "user", TRUE, 1, Bench)
+Q12 == S(<<D("ccr", TRUE, 1, "none", FALSE), D("transform", TRUE, 2, "none", FALSE), I("jvm")>>, 1, "operator", TRUE, 1, Bench)
+\* node level devices under every caller that respects the order of the life cycle
+QNode == { S(<<D("gc", TRUE, 1, "none", FALSE), I("diskio"), D("gc", FALSE, 1, "none", FALSE), I("startup"), D("gc", TRUE, 1, "none", FALSE)>>,
+             1, "off", TRUE, 1, p) : p \in SubSeqs(NodeLife) }
+QuickScenarios == {Q1, Q2, Q3, Q4, Q5, Q6, Q7, Q8, Q9, Q10, Q11, Q12}
 
 (* ---- thorough ---- *)
 SamplerDevs == {D(k, TRUE, iv, "none", k = "nodestats") : k \in {"ccr", "nodestats", "transform"}, iv \in {1, 3}}
@@ -51,6 +50,8 @@ SelfTestScenarios ==
     { S(<<I("ingest"), D("ccr", TRUE, 1, "none", FALSE), I("jvm")>>, 2, "off", FALSE, 1, Bench),
       S(<<D("nodestats", TRUE, 2, "none", FALSE)>>, 1, "off", TRUE, 1, Bench),
       S(<<I("diskio")>>, 1, "off", TRUE, 1, <<"attach", "store">>) }
+
+RepairedScenarios == {Q1, Q3, Q6, Q9} \cup SelfTestScenarios
 
 V012 == {0, 1, 2}
 V02 == {0, 2}
